@@ -25,7 +25,7 @@ RULE = ('cases: seeded histories of 20-50 ops over a hierarchy built per case: A
         'an explicit tag; distinct by (hierarchy shape, op trace).')
 ASSUMPTIONS = ['Agent/Environment/world classes are process-global: every history restores them through the public API in a finally block',
                'tags are plain ints']
-FLOORS = {'quick': {'constructions_that_fail': 351, 'classes_from_a_shared_namespace_dict': 702, 'instances_numpy_tag': 827, 'class_observations': 100000, 'class_attach': 2000, 'class_detach': 400, 'rejected_duplicate_attach': 200,
+FLOORS = {'quick': {'agents_saved_and_restored_across_a_default_tag_change': 91, 'constructions_that_fail': 351, 'classes_from_a_shared_namespace_dict': 702, 'instances_numpy_tag': 827, 'class_observations': 100000, 'class_attach': 2000, 'class_detach': 400, 'rejected_duplicate_attach': 200,
                     'rejected_absent_detach': 500, 'default_tag_changes': 2000, 'instances_default_tag': 1832,
                     'instances_default_tag_nonzero': 298, 'instances_explicit_tag': 800, 'instances_explicit_zero_vs_default': 100,
                     'environment_instances': 500, 'instances_added_to_environment': 1000, 'ops_on_library_classes': 2000, 'mid_history_classes': 500, 'same_named_classes': 300, 'big_many_classes': 2, 'big_many_class_components': 2,
@@ -236,6 +236,25 @@ def case_history(ctx, case):
                 check(err is not None, 'harness: the construction was expected to fail')
                 ctx.count('constructions_that_fail')
                 trace.append(('new!', K2.__name__, tagv, type(err).__name__))
+            elif x < 0.905 and instances:
+                # an agent is saved (its pickle state is taken), the default tag of its class changes, the agent is restored: it comes
+                # back with the tag IT had - explicit or received at creation - and its own components
+                import copy as _copy
+                j_ = rng.randrange(len(instances))
+                obj, tag, comps = instances[j_]
+                if not isinstance(obj, core.Environment):
+                    rv = obj.__reduce_ex__(4)
+                    K_ = type(obj)
+                    newdef = rng.choice([0, 1, 2, 3, 7])
+                    K_.tag = newdef
+                    ref[K_]['tag'] = newdef
+                    restored = _copy._reconstruct(obj, None, *rv)
+                    check(restored.tag == tag, f'an agent restored from its saved state has tag {restored.tag!r}; it had {tag!r} when it was saved '
+                          f'(the class default changed to {newdef!r} in between)', cls=K_.__name__, trace=trace[-8:])
+                    instances[j_] = (restored, tag, {t_: restored[t_] for t_ in comps})
+                    check(sorted(t_.__name__ for t_ in comps) == sorted(t_.__name__ for t_ in T if t_ in restored), 'a restored agent has other components')
+                    ctx.count('agents_saved_and_restored_across_a_default_tag_change')
+                    trace.append(('save/restore', K_.__name__, newdef))
             elif x < 0.93 and instances:
                 obj, tag, comps = rng.choice(instances)
                 t = rng.choice(T)
